@@ -113,7 +113,10 @@ def setup(conf: str | None = None) -> None:
 
         from spil.sid.pathops.pathconfig import get_path_config
 
-        for name in list(spil_conf().path_configs):  # pre-warm configuration level caches (E4)
+        names = list(spil_conf().path_configs)
+        if os.environ.get("VF_FIRST"):           # which path configuration is loaded first (C05/C13 variants)
+            names.sort(key=lambda n: n != os.environ["VF_FIRST"])
+        for name in names:  # pre-warm configuration level caches (E4)
             get_path_config(name)
         get_path_config(None)
         if not CACHES:
@@ -229,13 +232,20 @@ def stub_path() -> None:
 
 
 _clearables = None
+_nmods = -1
 
 
 def clear_caches() -> None:
     """Reset every spil / resolva memo (used by obligations that run with caches ON, so that each symbolic
     path starts from a fresh cache state; configuration-level caches are kept)."""
-    global _clearables
-    if _clearables is None:
+    global _clearables, _nmods
+    if _clearables is None or _nmods != len(sys.modules):
+        import spil.sid.core.sid_factory  # noqa  (imported lazily by spil)
+        import spil.sid.pathops.fs_resolver  # noqa
+        import spil.sid.read.finders.find_list  # noqa
+        import spil.sid.core.utils  # noqa
+
+        _nmods = len(sys.modules)
         found = []
         for modname, mod in list(sys.modules.items()):
             if mod is None or not (modname == "spil" or modname.startswith("spil.") or modname.startswith("spil_")):
